@@ -239,7 +239,11 @@ def wpa_case(rng, B, big=False, shadow=False):
                 i = rng.choice([4 + rng.randrange(18), 22])
                 h2[i] ^= 1 << (rng.randrange(8) if i != 22 else rng.randrange(4))
                 ops.append(f"wpa {hx(bytes(h2) + body)}")
-            elif t < 0.4 and fc:
+            elif t < 0.34:
+                # protected bit cleared: the frame is not WPA2-protected at all and must be left alone
+                h2 = bytes([h[0], h[1] & 0xbf]) + h[2:]
+                ops.append(f"wpa {hx(h2 + pt)}")
+            elif t < 0.42 and fc:
                 # header bits CCMP masks out of the AAD: Retry, PwrMgt, MoreData, duration, sequence number
                 h2 = bytearray(h)
                 h2[1] ^= rng.choice([0x08, 0x10, 0x20, 0x38])
@@ -480,6 +484,72 @@ def handshake_case(rng, B):
     B.cases.append(render)
 
 
+def regression_case(rng, B):
+    """one deterministic trigger per defect fixed in libtins (KF-C09-1,2,3,5,6), so that a regression is seen at every seed"""
+    bssid, staX, staY = [rand_bytes(rng, 6) for _ in range(3)]
+    ptk, ptk2 = rand_bytes(rng, 80), rand_bytes(rng, 80)
+    good = bytes([0xaa, 0xaa, 3, 0, 0, 0, 0x88, 0xb5]) + rand_bytes(rng, 21)
+    arp_short = bytes([0xaa, 0xaa, 3, 0, 0, 0, 0x08, 0x06]) + rand_bytes(rng, 9)
+    tiny = bytes([0xaa, 0xaa, 3])
+    h = mac_header(0, 1, 0, bssid, staX, staY, seq=7)
+    reqs = []
+    # KF-C09-2: plaintext that is not LLC/SNAP, TKIP and CCMP
+    for pt in (tiny, arp_short):
+        reqs.append(("tkip", h, pt, False, B.want(f"tkipenc {hx(ptk[32:48])} {hx(ptk[56:64])} {hx(staX)} {hx(staY)} {hx(staX)} 0 9 0 {hx(pt)}")))
+        reqs.append(("ccmp", h, pt, False, B.want(f"ccmpenc {hx(ptk[32:48])} {hx(h)} 9 0 {hx(pt)}")))
+    # KF-C09-3: TSC with four different upper bytes
+    reqs.append(("tkip", h, good, True, B.want(f"tkipenc {hx(ptk[32:48])} {hx(ptk[56:64])} {hx(staX)} {hx(staY)} {hx(staX)} 0 {0x0a0b0c0d0e0f} 0 {hx(good)}")))
+    # KF-C09-5: QoS Data + CF-Ack / + CF-Ack + CF-Poll
+    for sub in (9, 11):
+        hq = mac_header(sub, 1, 0, bssid, staX, staY, seq=8, qos=5)
+        reqs.append(("ccmp", hq, good, True, B.want(f"ccmpenc {hx(ptk[32:48])} {hx(hq)} 77 0 {hx(good)}")))
+    # KF-C09-6: from-DS frame to X whose original source Y has its own keys
+    hs = mac_header(0, 0, 1, staX, bssid, staY, seq=9)
+    reqs.append(("ccmp", hs, good, True, B.want(f"ccmpenc {hx(ptk[32:48])} {hx(hs)} 78 0 {hx(good)}")))
+
+    def render(bodies):
+        ops = ["case", f"ptk {hx(bssid)} {hx(staX)} {hx(ptk)} 0", f"ptk {hx(bssid)} {hx(staY)} {hx(ptk2)} 0"]
+        for c, hh, pt, ok, idx in reqs:
+            if c == "tkip":
+                ops.append(f"wpa {hx(hh + bodies[idx])} @ enc tkip {hx(ptk[32:48])} {hx(pt)} {1 if ok else 0}")
+        ops += ["case", f"ptk {hx(bssid)} {hx(staX)} {hx(ptk)} 1", f"ptk {hx(bssid)} {hx(staY)} {hx(ptk2)} 1"]
+        for c, hh, pt, ok, idx in reqs:
+            if c == "ccmp":
+                ops.append(f"wpa {hx(hh + bodies[idx])} @ enc ccmp {hx(ptk[32:48])} {hx(pt)} {1 if ok else 0}")
+        # KF-C09-1: CCMP bodies shorter than header + MIC
+        for n in (1, 7, 8, 15, 16):
+            ops.append(f"wpa {hx(h + bytes(n))}")
+        return ops
+    B.cases.append(render)
+
+
+def tag_case(rng, B):
+    """every byte of every integrity tag (WEP ICV, TKIP ICV, CCMP MIC) and of the IV / PN is covered by a check:
+    one frame per cipher, then one single-bit flip per such byte"""
+    bssid, sta, da = [rand_bytes(rng, 6) for _ in range(3)]
+    ptk = rand_bytes(rng, 80)
+    key = rand_bytes(rng, rng.choice([5, 13]))
+    h = mac_header(rng.choice([0, 8]), 1, 0, bssid, sta, da, seq=rng.randrange(4096), qos=rng.randrange(16))
+    pt = bytes([0xaa, 0xaa, 3, 0, 0, 0, 0x88, 0xb5]) + rand_bytes(rng, rng.randint(1, 40))
+    prio = (h[24] & 0x0f) if h[0] & 0x80 else 0
+    iw = B.want(f"wepenc {hx(key)} {hx(rand_bytes(rng, 3))} 0 {hx(pt)}")
+    it = B.want(f"tkipenc {hx(ptk[32:48])} {hx(ptk[56:64])} {hx(sta)} {hx(da)} {hx(sta)} {prio} {rng.getrandbits(48)} 0 {hx(pt)}")
+    ic = B.want(f"ccmpenc {hx(ptk[32:48])} {hx(h)} {rng.getrandbits(48)} 0 {hx(pt)}")
+
+    def render(bodies):
+        ops = []
+        for op, setup, body, positions in (
+                ("wep", f"weppw {hx(bssid)} {hx(key)}", bodies[iw], [0, 1, 2] + list(range(len(bodies[iw]) - 4, len(bodies[iw])))),
+                ("wpa", f"ptk {hx(bssid)} {hx(sta)} {hx(ptk)} 0", bodies[it], [0, 2, 4, 5, 6, 7] + list(range(len(bodies[it]) - 4, len(bodies[it])))),
+                ("wpa", f"ptk {hx(bssid)} {hx(sta)} {hx(ptk)} 1", bodies[ic], [0, 1, 4, 5, 6, 7] + list(range(len(bodies[ic]) - 8, len(bodies[ic]))))):
+            ops += ["case", setup]
+            for i in positions:
+                b = bytearray(body); b[i] ^= 1 << rng.randrange(8)
+                ops.append(f"{op} {hx(h + bytes(b))}")
+        return ops
+    B.cases.append(render)
+
+
 def michael_case(rng, B):
     """KF-C09-4, reproduced on every run: TKIP frames whose ICV verifies and whose Michael MIC does not —
     (a) the destination address changed in the header, (b) payload bits flipped with the CRC-linear ICV fix-up"""
@@ -530,6 +600,9 @@ def gen_ops(rng, tier, exe):
         handshake_case(rng, B)
     for i in range(2 if quick else 20):
         michael_case(rng, B)
+    for i in range(3 if quick else 60):
+        tag_case(rng, B)
+    regression_case(rng, B)
     return aes_ops(rng, 20 if quick else 400) + B.run()
 
 
